@@ -155,6 +155,14 @@ impl Workspace {
         label: impl Into<String>,
         files: &[PathBuf],
     ) -> io::Result<Checkpoint> {
+        // Resolve and validate every path against the workspace root before touching the store.
+        let mut resolved = Vec::with_capacity(files.len());
+        for path in files {
+            let rel = self.to_relative(path)?;
+            let source = self.root.join(&rel);
+            resolved.push((rel, source));
+        }
+
         let checkpoint_id = Uuid::new_v4().to_string();
         let label = label.into();
         let created_at_ms = now_ms();
@@ -164,9 +172,8 @@ impl Workspace {
 
         let mut entries = Vec::new();
 
-        for path in files {
-            let rel = self.to_relative(path)?;
-            let dest = files_root.join(&rel);
+        for (rel, path) in &resolved {
+            let dest = files_root.join(rel);
 
             if path.exists() {
                 if let Some(parent) = dest.parent() {
@@ -290,9 +297,20 @@ impl Workspace {
         } else {
             self.root.join(path)
         };
-        abs.strip_prefix(&self.root)
+        let rel = abs
+            .strip_prefix(&self.root)
             .map(|p| p.to_path_buf())
-            .map_err(|_| io::Error::new(io::ErrorKind::InvalidInput, "path outside workspace"))
+            .map_err(|_| io::Error::new(io::ErrorKind::InvalidInput, "path outside workspace"))?;
+        if rel
+            .components()
+            .any(|component| matches!(component, Component::ParentDir))
+        {
+            return Err(io::Error::new(
+                io::ErrorKind::InvalidInput,
+                "path escapes workspace root",
+            ));
+        }
+        Ok(rel)
     }
 
     fn safe_join(&self, rel: &Path) -> io::Result<PathBuf> {
